@@ -192,6 +192,84 @@ def main(tier):
                 if why:
                     run.violation("detail:annotation-inconsistent:" + why, dict(rep, term=core))
         run.sample({"oracle": "detailobs", "source": exprs[0][0]})
+        # ---- variables and computed values in the text: a name is shown as value[name], a computed value as value[name=its own text=value];
+        #      the variables come from the script, from the host's global table (decoded per load) and from computed bodies that read them
+        import json as _json
+        doc = {"力量": {"t": 0, "v": 60}, "敏捷": {"t": 0, "v": 45}, "gcv": {"t": 5, "v": {"expr": "2d6+力量"}}, "gc2": {"t": 5, "v": {"expr": "敏捷*2"}}}
+        spec = "gjson:" + hx(_json.dumps(doc, ensure_ascii=False))
+        PRE = "lv = 7; &lc = 2d4+lv+力量; "
+        ATOMS = ["力量", "敏捷", "gcv", "gc2", "lv", "lc", "2d6", "3", "1d4", "lc", "gcv"]
+        vlines, vmeta = [], []
+        for _ in range(300 if tier == "thorough" else 80):
+            terms = [r.choice(ATOMS) for _ in range(r.randint(1, 4))]
+            src = terms[0]
+            for tkn in terms[1:]:
+                src += r.choice([" + ", " - ", " * ", "+"]) + tkn
+            vlines.append(f"custom L100000 {r.getrandbits(128):032x} {spec} {hx(PRE + src)}")
+            vmeta.append(PRE + src)
+
+        def split_top(text, ch):
+            out_, depth, cur = [], 0, ""
+            for c in text:
+                if c == "[":
+                    depth += 1
+                elif c == "]":
+                    depth -= 1
+                if c == ch and depth == 0:
+                    out_.append(cur)
+                    cur = ""
+                else:
+                    cur += c
+            out_.append(cur)
+            return out_
+
+        def strip_ann(text):
+            prev = None
+            while prev != text:
+                prev = text
+                text = re.sub(r"(-?\d+)\[[^\[\]]*\]", r"\1", text)
+            return text
+
+        def annotations(text):
+            """(value, content) of every value[content], outermost first"""
+            res, i = [], 0
+            for m in re.finditer(r"(-?\d+)\[", text):
+                depth, j = 1, m.end()
+                while j < len(text) and depth:
+                    depth += {"[": 1, "]": -1}.get(text[j], 0)
+                    j += 1
+                res.append((int(m.group(1)), text[m.end():j - 1]))
+            return res
+
+        for (ln, g), src in zip(run.go_only("detailvars", vlines, go_timeout=300), vmeta):
+            m = re.match(r"ok i(-?\d+) d=(\S+) ", g)
+            if not m:
+                run.count("detailvars.not-int")
+                continue
+            val, det = int(m.group(1)), unhx(m.group(2)).decode("utf-8", "replace")
+            rep = {"source": src, "host_globals": doc, "result": val, "detail": det}
+            run.nontriv(("vars", src))
+            last = split_top(det, ";")[-1]
+            flat = strip_ann(last)
+            if re.fullmatch(r"[\d\s()+\-*]+", flat):
+                try:
+                    if eval(flat, {"__builtins__": {}}) != val:
+                        run.violation("detail:stripped-text-evaluates-differently", dict(rep, stripped=flat))
+                except Exception:
+                    run.violation("detail:stripped-text-does-not-parse", dict(rep, stripped=flat))
+            elif "null" in flat:
+                run.violation("detail:a-value-that-was-read-is-shown-as-null", dict(rep, stripped=flat))
+            for n, content in annotations(det):
+                for part in split_top(content, "=")[1:]:
+                    fp = strip_ann(part)
+                    if re.fullmatch(r"[\d\s()+\-*]+|.*\bnull\b.*", fp) and re.fullmatch(r"[\d\s()+\-*]*(null[\d\s()+\-*]*)*", fp):
+                        try:
+                            ok_ = eval(fp, {"__builtins__": {}}) == n
+                        except Exception:
+                            ok_ = False
+                        if not ok_:
+                            run.violation("detail:annotation-does-not-add-up", dict(rep, annotated_value=n, annotation=content, part=part))
+                            break
         # ---- a run that FAILED has no result and therefore nothing to explain: no spans are published, the text is empty —
         # whatever the aborted evaluation had rolled before the failing instruction, and whatever the previous run left
         FAIL_TAILS = [" + 3d0", " + (2d6)d0", " - 0d4", " + 2d6kh0", " + nosuch_fn(1)", " + [1][5]", " + 1/0", " + 'a'*'b'", " + 2d(0)"]
